@@ -434,6 +434,9 @@ class Terminal(Service, discriminator="terminal"):
         :param session_id: The session id the payload relates to.
         :return: True.
         """
+        if not super().receive(payload=payload, session_id=session_id, **kwargs):
+            return False
+
         source_ip = kwargs["frame"].ip.src_ip_address
         self.sys_log.info(f"{self.name}: Received payload: {payload}. Source: {source_ip}")
         self._last_response = None  # Clear last response
